@@ -105,7 +105,23 @@ def pick_pw(r):
     return r.choice([None, 0.125, 0.25]) if r.random() < 0.55 else r.choice(PW_VALUES)
 
 
+MW_VALUES = [None, 0, 50, 100, 300, 500, 1000, 1000, 1000, -5, 2.5, True, "100"]
+
+
+def gen_wait_op(r, mw=None):
+    """a request with max_wait_ms (the PSU may delay it: it is busy after every accepted pulse / enable)"""
+    mw = r.choice(MW_VALUES) if mw is None else mw
+    k = r.random()
+    if k < 0.45:
+        return ["pulse_w", pick_ms(r), pick_pw(r), mw]
+    if k < 0.85:
+        return ["enable_w", pick_ms(r), pick_pw(r), pick_pw(r), mw]
+    return ["timed_w", pick_ms(r), pick_pw(r), pick_ms(r), pick_pw(r), mw]
+
+
 def gen_op(r):
+    if r.random() < 0.12:
+        return gen_wait_op(r)
     k = r.random()
     if k < 0.28:
         return ["pulse", r.choice(["api", "api", "event"]), pick_ms(r), pick_pw(r)]
@@ -221,6 +237,36 @@ def eff_limits(coil):
             "max_hold_duration": c["max_hold_duration"] or None}
 
 
+_CUR = None          # the Run whose coil's delay manager is being observed
+_PATCHED = False
+
+
+def _patch_delays():
+    """observe (from the harness process) the real DelayManager: which nameless delays the coil adds (the PSU-delayed
+    `_pulse_now` / `_enable_now` calls) and which delay callback the event loop runs, in the order it runs them"""
+    global _PATCHED
+    if _PATCHED:
+        return
+    from mpf.core.delays import DelayManager
+    orig_add, orig_cb = DelayManager.add, DelayManager._process_delay_callback
+
+    def add(self, ms, callback, name=None, **kwargs):
+        res = orig_add(self, ms, callback, name, **kwargs)
+        r = _CUR
+        if r is not None and not name and self is getattr(r.coil, "delay", None):
+            r.pend_names.append(res)
+        return res
+
+    def process(self, name, callback, **kwargs):
+        r = _CUR
+        if r is not None and self is getattr(r.coil, "delay", None):
+            r.fired.append((round(r.vm.now() * 1000), name))
+        return orig_cb(self, name, callback, **kwargs)
+    DelayManager.add = add
+    DelayManager._process_delay_callback = process
+    _PATCHED = True
+
+
 class Run:
     """one real machine + command log"""
 
@@ -234,6 +280,24 @@ class Run:
         self.coil = m.coils["c0"]
         self.coil1 = m.coils["c1"]
         self.log1 = []
+        self.pend_names = []     # nameless delays of c0 still pending, in the order they were added (= the model's `pend`)
+        self.fired = []          # (tick, delay name) of every delay callback of c0 the loop ran
+        self.psu_answers = []    # what the real PSU answered to get_wait_time_for_pulse
+        global _CUR
+        _patch_delays()
+        _CUR = self
+        psu = self.coil.config["psu"]
+        psu_cls = type(psu)
+        if not getattr(psu_cls, "_c08_wrapped", False):
+            orig_wait = psu_cls.get_wait_time_for_pulse
+
+            def get_wait(self_, pulse_ms, max_wait_ms):
+                w = orig_wait(self_, pulse_ms, max_wait_ms)
+                if _CUR is not None and self_ is _CUR.coil.config["psu"]:
+                    _CUR.psu_answers.append(w)
+                return w
+            psu_cls.get_wait_time_for_pulse = get_wait
+            psu_cls._c08_wrapped = True
         vm = self.vm
         hw1 = self.coil1.hw_driver
 
@@ -335,6 +399,13 @@ class Run:
             elif kind == "autofire":
                 m.events.post("af_on" if op[1] == "enable" else "af_off")
                 self.vm.run()
+            elif kind in ("pulse_w", "enable_w", "timed_w"):
+                names = {"pulse_w": ("pulse_ms", "pulse_power", "max_wait_ms"),
+                         "enable_w": ("pulse_ms", "pulse_power", "hold_power", "max_wait_ms"),
+                         "timed_w": ("timed_enable_ms", "hold_power", "pulse_ms", "pulse_power", "max_wait_ms")}[kind]
+                kw = {k: v for k, v in zip(names, op[1:]) if v is not None}
+                {"pulse_w": c.pulse, "enable_w": c.enable, "timed_w": c.timed_enable}[kind](**kw)
+                self.vm.run()
             elif kind == "enable_wait":
                 c.enable(max_wait_ms=op[1])          # PSU-delayed enable (same path as EnableCoilEjector)
                 self.vm.run()
@@ -361,7 +432,8 @@ class Run:
                     self.vm.run()
             return "ok"
         except BaseException as e:  # a refusal (or a crash) - the machine may be unusable afterwards
-            self.dead = kind not in ("pulse", "enable", "timed_enable", "disable", "enable_wait", "pulse_wait", "dw") or \
+            self.dead = kind not in ("pulse", "enable", "timed_enable", "disable", "enable_wait", "pulse_wait", "dw",
+                                     "pulse_w", "enable_w", "timed_w") or \
                 (kind in ("pulse", "enable", "timed_enable", "disable") and op[1] != "api")
             if not self.dead:
                 try:
@@ -374,6 +446,8 @@ class Run:
     cur = "boot"
 
     def stop(self):
+        global _CUR
+        _CUR = None
         self.vm.stop()
 
 
@@ -519,7 +593,7 @@ def unpv(t):
     raise ValueError(t)
 
 
-NOSRC = ("advance", "setvar", "enable_wait", "pulse_wait", "dw")      # ops without an api/event source field
+NOSRC = ("advance", "setvar", "enable_wait", "pulse_wait", "dw", "pulse_w", "enable_w", "timed_w")      # ops without an api/event source field
 
 
 def tok_op(op):
@@ -532,6 +606,23 @@ def untok_op(t):
     if t[0] == "dw":
         return ["dw", t[1]] + [unpv(x) for x in t[2:]]
     return [t[0]] + [x if (i == 0 and t[0] not in NOSRC) else unpv(x) for i, x in enumerate(t[1:])]
+
+
+def model_line(op, answers):
+    """the model's op line; a request with max_wait_ms carries what the real PSU answered (N: it was not asked / it raised)"""
+    w = pv(answers[-1]) if answers else "N"
+    k = op[0]
+    if k == "pulse_w":
+        return "op pulse_wait %s %s" % (" ".join(pv(x) for x in op[1:4]), w)
+    if k == "enable_w":
+        return "op enable_wait %s %s" % (" ".join(pv(x) for x in op[1:5]), w)
+    if k == "timed_w":
+        return "op timed_enable_wait %s" % " ".join(pv(x) for x in op[1:6])
+    if k == "enable_wait":
+        return "op enable_wait N N N %s %s" % (pv(op[1]), w)
+    if k == "pulse_wait":
+        return "op pulse_wait %s N %s %s" % (pv(op[1]), pv(op[2]), w)
+    return "op " + " ".join(tok_op(op))
 
 
 def run_case(ctx, cfg, player, af, ops, model, r, sample=True):
@@ -552,23 +643,54 @@ def run_case(ctx, cfg, player, af, ops, model, r, sample=True):
             verify_corr(ctx, case, run.coil, model, r)
             model.ask("reset " + str(run.t0))
         for op in ops:
-            n0 = len(run.log)
+            n0, f0, a0 = len(run.log), len(run.fired), len(run.psu_answers)
             res = run.do(op)
             results.append(res)
             ctx.count("op_" + op[0])
             ctx.count("res_" + res.split(":")[0])
-            if op[0] in ("player", "autofire", "enable_wait", "pulse_wait", "dw"):
-                synced = False       # coil_player / autofire glue and PSU waits are not in the Driver model: oracle only from here on
+            if op[0] in ("pulse_w", "enable_w", "timed_w") and op[-1] is not None and num(op[-1]) is None:
+                synced = False       # an ill-typed max_wait_ms makes the PSU itself raise: collaborators that raise are outside the effect model
+                ctx.count("psu_raised_unsynced")
+            if op[0] in ("player", "autofire", "dw"):
+                synced = False       # coil_player / autofire / dual-wound glue is not in the Driver model: oracle only from here on
             if op[0] == "setvar":
                 if model is not None and not run.dead:
                     model.ask("cfg " + cfg_tokens(run.coil))     # the templated default changed: new environment
                 continue
             if model is not None and synced:
-                line = "op " + " ".join(tok_op(op))
-                ans = model.ask(line)
-                impl = res.split(":")[0] + "".join(" %s@%d:%s" % (n, t - run.t0, fmt_args(a)) for n, t, a, _ in run.log[n0:])
-                # two software timers due at the same instant fire in asyncio's heap order (not modelled): the second
-                # disable may or may not be cancelled by the first.  disable is idempotent: collapse repeats at one instant.
+                cmds = "".join(" %s@%d:%s" % (n, t - run.t0, fmt_args(a)) for n, t, a, _ in run.log[n0:])
+                if op[0] == "advance":
+                    # the event loop chose the order of the timers it ran; the model is told which one ran (`fire`) and
+                    # answers not-enabled if that timer could not run then; the final advance_to must find nothing left
+                    answers = []
+                    for t, name in run.fired[f0:]:
+                        if name == "timed_disable":
+                            which = "td"
+                        elif name == "enable_limit_reached":
+                            which = "lim"
+                        elif name in run.pend_names:
+                            which = "pend %d" % run.pend_names.index(name)
+                            run.pend_names.remove(name)
+                            ctx.count("fired_delayed_call")
+                        else:
+                            which = "unknown"
+                        ctx.count("fired_" + which.split(" ")[0])
+                        answers.append(model.ask("op fire " + which))
+                    answers.append(model.ask("op advance_to %d" % (round(run.vm.now() * 1000) - run.t0)))
+                    bad = [a for a in answers if not a.startswith("ok")]
+                    ans = bad[0] if bad else "ok" + "".join(a[2:] for a in answers)
+                    impl = "ok" + cmds     # an exception escaping a timer callback is not a refusal of anything: commands only
+                else:
+                    ans = model.ask(model_line(op, run.psu_answers[a0:]))
+                    impl = res.split(":")[0] + cmds
+                    for t, name in run.fired[f0:]:
+                        if name in run.pend_names:       # a delayed call due at once: not expected (waits are >= 1 ms)
+                            run.pend_names.remove(name)
+                            ctx.count("delayed_call_fired_inside_request")
+                    if run.psu_answers[a0:] and num(run.psu_answers[-1]) and run.psu_answers[-1] > 0:
+                        ctx.count("psu_delayed_request")
+                # two named software timers due at the same instant: the second disable may or may not be cancelled by the
+                # first.  disable is idempotent: collapse repeats at one instant.
                 ctx.compare(dict(case, what="op", op=op), dedupe(impl), dedupe(ans))
             if run.dead:
                 break
@@ -641,13 +763,41 @@ def gen_timer_case(r):
             ops.append(["setvar", r.choice([5, 20, 40, 250, 500])])
         else:
             ops.append(["advance", r.choice([1, 1, 2, 2, 3, 4, 8])])
-    if r.random() < 0.35:
+    k = r.random()
+    if k < 0.3:
         # PSU scenario: a pulse makes the power supply busy, the next request is delayed by the PSU, something else
         # (a disable, another request) lands inside the wait
         i = r.randint(0, len(ops))
         ops[i:i] = [["pulse", "api", r.choice([50, 100, 200]), None],
-                    r.choice([["enable_wait", r.choice([100, 300, 1000])], ["pulse_wait", r.choice([20, 300]), 500]]),
+                    r.choice([["enable_wait", r.choice([100, 300, 1000])], ["pulse_wait", r.choice([20, 300]), 500],
+                              ["enable_w", r.choice([None, 10]), None, r.choice([None, 0.5]), 1000],
+                              ["pulse_w", r.choice([10, 300, 0]), None, 1000]]),
                     r.choice([["disable", "api"], ["disable", "event"], ["advance", 1], ["enable", "api", None, None, None]])]
+    elif k < 0.45:
+        # coincidence: the delayed call becomes due at the very instant the hold-limit timer does (the loop picks the order)
+        cfg["max_hold_duration"] = r.choice([0.25, 0.5])
+        busy = int(cfg["max_hold_duration"] * 1000) - 10
+        ops = [["enable", "api", None, None, None], ["pulse", "api", busy, None],
+               r.choice([["enable_w", None, None, None, 1000], ["pulse_w", r.choice([10, 300]), None, 1000]]),
+               r.choice([["disable", "api"], ["advance", 1], ["enable", "api", None, None, None]]),
+               ["advance", r.choice([2, 4, 8])], r.choice([["disable", "api"], ["advance", 4]]), ["advance", 8]]
+        cfg.pop("max_pulse_ms", None)
+        if cfg.get("default_pulse_ms") == "machine.kick":
+            cfg.pop("default_pulse_ms")
+    elif k < 0.6:
+        # coincidence: a delayed call and the timed_disable of a software-timed pulse due at the same millisecond
+        ops = [["pulse", "api", 500, None], ["advance", 1],
+               r.choice([["pulse_w", 10, None, 1000], ["enable_w", None, None, None, 1000], ["pulse_w", 300, None, 1000]]),
+               ["pulse", "api", 385, None], r.choice([["advance", 2], ["advance", 4]]), ["advance", 8]]
+        cfg.pop("max_pulse_ms", None)
+        if cfg.get("default_pulse_ms") == "machine.kick":
+            cfg.pop("default_pulse_ms")
+    elif k < 0.75:
+        # several requests queue up behind a busy PSU
+        i = r.randint(0, len(ops))
+        ops[i:i] = [["pulse", "api", r.choice([50, 100, 240]), None]] + \
+                   [gen_wait_op(r, r.choice([300, 1000, 1000])) for _ in range(r.randint(1, 3))] + \
+                   [r.choice([["disable", "api"], ["advance", 1], ["advance", 2]])]
     return cfg, gen_player(r), {}, ops
 
 
